@@ -52,6 +52,9 @@ def function_table():
             "cos(-(a + (pi + b)))", "sin(-(a + (pi + b)))", "tan(-(a / 4 + (pi + b / 8)))", "cos((a + (pi + b)) * -1)", "cos(-(a + (pi + b)) + c)", "cos(2 * (a + (pi / 2 + b)))", "sin(-2 * (a + (pi / 2 + b)))",
             "cos(-(-(a + (pi + b))))", "cos((a + (pi + b)) / -1)", "sin(-((a + (pi + b)) + c))", "cos(-(a + (b + (pi + c))))", "exp(-(a + (b + (1.5 + c))))", "cos(-(a - (pi - b)))", "cos(-a - (pi + b))", "cos(-(a + (pi + b)) ** 1)",
             "cos(c * (a + (pi + b)))", "sin(-(a + (pi + b)) / 2)", "cos(abs(-(a + (pi + b))))", "sin(pi - (a + (pi + b)))",
+            # unevaluated constant multiples of pi; real parts introduced by sympy for functions that can be complex
+            "sin((a - b) - pi * pi)", "sin(a + 2 * pi * pi)", "cos(a - pi * pi)", "sin(a + pi * pi * pi)", "tan(a / 4 - (b + pi * pi))", "sin(a - pi * 2 * 3)", "cos(a * pi * pi)", "sin(a + pi * 0.5 * 2)",
+            "log(abs(exp(asin(a / 2))) + 0.5)", "abs(exp(acos(b / 2)))", "abs(exp(atan(a))) * b", "abs(exp(sqrt(c))) - abs(exp(log(a)))",
             "exp(a + (b + (1.5 + c)))", "log(a + (b + (1.5 + c)))", "sqrt(a + (b + (c + 2)))",
             "floor(a * 3) / 2", "floor(-a * 3)", "floor(a) + floor(b)", "a - floor(a)", "floor(a / b)", "abs(a - 2)", "abs(-a) * abs(b - 1)",
             "sqrt(a * a + b * b)", "sqrt(a) * sqrt(b)", "exp(log(a + 1))", "log(exp(a))", "exp(a) * exp(b)", "exp(-a / 6.8)", "exp(2)", "exp(1)", "exp(1) * a",
